@@ -4,20 +4,70 @@ import Proofs.Marks
 
 `eval` is the evaluator model (`HclModel/Expr/Eval.lean`, tied to the Go evaluator by the `EVAL`
 correspondence, marks at every level included).  `relV a b` says that two values are equal except inside
-parts that carry the mark in both.
+parts that carry the mark in both (the flags themselves are not compared).
 
-The statement is proved for the *strict* configuration: `keepKeyMarks` (indexing an object by a marked
-key keeps the key's marks — the Go code drops them, pinned by an existing test: recorded finding, witness
-below) and `keepDropped` (no sub-evaluation failed, including those whose diagnostics Go discards).
+The statements are about the *strict* configuration: `keepKeyMarks` (indexing an object by a marked key keeps
+the key's marks — the Go code drops them, pinned by an existing test: recorded finding, witness
+`noninterference_go_false` below) and `keepDropped` (no sub-evaluation failed, including those whose
+diagnostics Go discards).
+
+## What is proved, and what is not
+
+Noninterference in full strength (`NoninterferenceFull`) is **false**, also for the strict configuration.
+The evaluator (like the Go code it mirrors) lets two things about a marked value show through without a mark:
+
+* **family K — known-ness.**  Several places return a fresh *unmarked* unknown (or `cty.DynamicVal`) when the
+  value they inspect is unknown or of the dynamic pseudo-type, and a marked result otherwise: the operand of a
+  unary operator, an index key, an object-constructor key, the collection of a `for` expression, the tuple of a
+  template join, the expanded final argument of a call (there also: whether it is empty).  Two runs in which
+  a marked value is unknown in one and known in the other are told apart.
+* **family T — types.**  `relV` lets parts marked in both runs differ in type, tuples and objects are
+  heterogeneous, and the type of a value is not protected by its marks: the unified result type of a
+  conditional (visible in the type of a `null` or unknown result, or in a conversion) and the element type of
+  the list built by a splat depend on the types of marked parts; `unifyCond` also looks at the mark itself.
+
+Each is witnessed below by a theorem proved by evaluation (`decide`).
+
+`noninterference_partial` is the theorem with the side condition `Proofs.Stable` (defined in
+`Proofs/MarksStable.lean`, ~60 lines), which says exactly that the two runs agree on those shapes:
+
+* `shapeEq` (both known or both unknown; both of type `dyn` or neither) of: the operand of `-` / `!`; an index
+  key; each object-constructor key; the collection of a `for`; the tuple of a template join and, unless that
+  tuple is marked in both runs, its elements pairwise; the expanded argument `xs...` of a call, which, if
+  marked in both runs, must also be empty in both or in neither;
+* for `c ? t : f`: the value of `c`, `t` or `f` is marked in both runs, or `unifyCond` gives the same type;
+* for a splat: the source is marked in both runs, or the two results have the same type;
+* recursively for all sub-expressions, loop bodies being compared iteration by iteration (unless the
+  collection is marked in both runs, which marks the result in both).
+
+Literals, variables, attribute access, binary operators, tuple constructors and templates have no clause:
+for expressions built from these alone the property holds outright (`noninterference_plain`).
 -/
 namespace HclModel
 
-/-- Noninterference: evaluate one expression in two scopes that differ only inside marked values.  If both
-    evaluations are free of errors, the results are equal except inside parts marked in both. -/
-theorem noninterference (F : Funcs) (hF : LawfulFuncs F) (e : Expr) (ρ σ : Env) (h : relEnv ρ σ)
+/-- Noninterference, full strength: evaluate one expression in two scopes that differ only inside marked
+    values; if both evaluations are free of errors, the results are equal except inside parts marked in both.
+    **False** — see the witnesses `K_*` and `T_*`. -/
+def NoninterferenceFull (F : Funcs) : Prop :=
+  LawfulFuncs F → ∀ (e : Expr) (ρ σ : Env), relEnv ρ σ →
+    (eval (strictCx F) ρ e).2 = [] → (eval (strictCx F) σ e).2 = [] →
+    relV (eval (strictCx F) ρ e).1 (eval (strictCx F) σ e).1 = true
+
+/-- Noninterference under the side condition `Proofs.Stable` (the two runs agree on the known-ness of the
+    values inspected at the mark-dropping sites, and on the types that the conditional and the splat turn
+    into content; see the header of this file). -/
+theorem noninterference_partial (F : Funcs) (hF : LawfulFuncs F) (e : Expr) (ρ σ : Env) (h : relEnv ρ σ)
+    (hs : Proofs.Stable (strictCx F) e ρ σ)
     (h₁ : (eval (strictCx F) ρ e).2 = []) (h₂ : (eval (strictCx F) σ e).2 = []) :
     relV (eval (strictCx F) ρ e).1 (eval (strictCx F) σ e).1 = true :=
-  Proofs.noninterference F hF e ρ σ h h₁ h₂
+  Proofs.noninterference_partial F hF e ρ σ h hs h₁ h₂
+
+/-- Noninterference, without side condition, for expressions built from literals, variables, attribute
+    access, binary operators, tuple constructors and templates. -/
+theorem noninterference_plain (F : Funcs) (hF : LawfulFuncs F) (e : Expr) (hp : Proofs.plain e = true) (ρ σ : Env)
+    (h : relEnv ρ σ) (h₁ : (eval (strictCx F) ρ e).2 = []) (h₂ : (eval (strictCx F) σ e).2 = []) :
+    relV (eval (strictCx F) ρ e).1 (eval (strictCx F) σ e).1 = true :=
+  Proofs.noninterference_plain F hF e hp ρ σ h h₁ h₂
 
 /-- Related values that differ in content carry the mark somewhere in their structure — both of them. -/
 theorem rel_differ_marked (a b : Val) (h : relV a b = true) (hd : Val.eqErased a b = false) :
@@ -25,12 +75,13 @@ theorem rel_differ_marked (a b : Val) (h : relV a b = true) (hd : Val.eqErased a
   Proofs.rel_differ_marked a b h hd
 
 /-- The property, for the model: if changing the content of marked variables changes the error-free result,
-    the result carries the mark in both evaluations. -/
+    the result carries the mark in both evaluations (under the side condition of `noninterference_partial`). -/
 theorem marks_propagate (F : Funcs) (hF : LawfulFuncs F) (e : Expr) (ρ σ : Env) (h : relEnv ρ σ)
+    (hs : Proofs.Stable (strictCx F) e ρ σ)
     (h₁ : (eval (strictCx F) ρ e).2 = []) (h₂ : (eval (strictCx F) σ e).2 = [])
     (hd : Val.eqErased (eval (strictCx F) ρ e).1 (eval (strictCx F) σ e).1 = false) :
     Val.hasMarkDeep (eval (strictCx F) ρ e).1 = true ∧ Val.hasMarkDeep (eval (strictCx F) σ e).1 = true :=
-  rel_differ_marked _ _ (noninterference F hF e ρ σ h h₁ h₂) hd
+  rel_differ_marked _ _ (noninterference_partial F hF e ρ σ h hs h₁ h₂) hd
 
 /-- When no sub-evaluation fails, the Go configuration computes the same value as the strict one, up to the
     key-mark repair: with `keepKeyMarks` alone the two configurations agree exactly. -/
@@ -38,14 +89,25 @@ theorem strict_agrees (F : Funcs) (e : Expr) (ρ : Env) (h : (eval (strictCx F) 
     eval { funcs := F, keepKeyMarks := true, keepDropped := false } ρ e = ((eval (strictCx F) ρ e).1, []) :=
   Proofs.strict_agrees F e ρ h
 
-/-- The full-strength statement (for the Go configuration) … -/
+/-- The side condition is satisfiable beyond the plain fragment: the scopes of `noninterference_go_false`
+    below (`o[k]`, marked keys `"a"` / `"b"`) satisfy it, so in the strict configuration the two results are
+    related (both carry the key's mark). -/
+theorem stable_index_example : Proofs.Stable (strictCx fun _ => none) (.index (.var "o") (.var "k"))
+    [("o", .object {} [("a", .num {} 1), ("b", .num {} 2)]), ("k", .str ⟨true, true⟩ "a")]
+    [("o", .object {} [("a", .num {} 1), ("b", .num {} 2)]), ("k", .str ⟨true, true⟩ "b")] := by
+  simp only [Proofs.Stable, true_and]
+  constructor <;> rfl
+
+/-! ### the Go configuration -/
+
+/-- The full-strength statement for the Go configuration … -/
 def NoninterferenceGo (F : Funcs) : Prop :=
   ∀ (e : Expr) (ρ σ : Env), relEnv ρ σ →
     (eval { funcs := F } ρ e).2 = [] → (eval { funcs := F } σ e).2 = [] →
     relV (eval { funcs := F } ρ e).1 (eval { funcs := F } σ e).1 = true
 
-/-- … is false: `o[k]` with a marked key `k` returns the selected attribute without the mark
-    (`hcl.Index`, object case: `key, _ = key.Unmark()`); replayed on the Go code. -/
+/-- … is false already for known values of equal types: `o[k]` with a marked key `k` returns the selected
+    attribute without the mark (`hcl.Index`, object case: `key, _ = key.Unmark()`); replayed on the Go code. -/
 theorem noninterference_go_false : ¬ NoninterferenceGo (fun _ => none) := by
   intro h
   have := h (.index (.var "o") (.var "k"))
@@ -54,5 +116,213 @@ theorem noninterference_go_false : ¬ NoninterferenceGo (fun _ => none) := by
     (by simp [relEnv, relV, relF]) (by rfl) (by rfl)
   revert this
   decide
+
+/-! ### witnesses against `NoninterferenceFull` -/
+
+theorem lawful_empty : LawfulFuncs (fun _ => none) :=
+  ⟨fun _ _ h => by simp at h, fun _ _ h => by simp at h⟩
+
+/-- one variadic function `len(args...)` returning the number of its arguments -/
+def lenTable : Funcs := fun fn =>
+  if fn = "len" then
+    some { params := [], varParam := some .dyn, retTy := fun _ => .num,
+           impl := fun args => .ok (.num {} (args.length : Rat)) }
+  else none
+
+theorem eqErasedAll_length : ∀ (xs ys : List Val), eqErasedAll xs ys = true → xs.length = ys.length
+  | [], [], _ => rfl
+  | [], _ :: _, h => by simp [eqErasedAll] at h
+  | _ :: _, [], h => by simp [eqErasedAll] at h
+  | _ :: xs, _ :: ys, h => by
+    simp only [eqErasedAll, Bool.and_eq_true] at h
+    simp [eqErasedAll_length xs ys h.2]
+
+theorem lawful_lenTable : LawfulFuncs lenTable := by
+  constructor
+  · intro fn spec h args args' he
+    unfold lenTable at h
+    split at h
+    · cases h
+      simp [eqErasedAll_length _ _ he, Val.eqErased, Val.hasMarkDeep, Val.fl]
+    · cases h
+  · intro fn spec h args args' _
+    unfold lenTable at h
+    split at h
+    · cases h; rfl
+    · cases h
+
+private abbrev M : Fl := ⟨true, true⟩
+private abbrev N : Fl := {}
+
+/-! #### family K: the known-ness of a value marked in both runs is observable -/
+
+/-- `-x` with `x` unknown in one run, `5` in the other (both marked): `unknown(number)` without mark vs
+    marked `-5` (`function.Call` returns a fresh unknown for an unknown argument whose parameter allows marks). -/
+theorem K_unary_minus : ¬ NoninterferenceFull (fun _ => none) := by
+  intro h
+  have := h lawful_empty (.un .neg (.var "x")) [("x", .unk M .num)] [("x", .num M 5)]
+    (by simp [relEnv, relV]) (by rfl) (by rfl)
+  revert this
+  decide
+
+/-- `o[k]` with `k` a marked unknown of the dynamic type in one run, marked `0` in the other:
+    `hcl.Index` returns `DynamicVal.WithSameMarks(collection)`, the key's marks are lost. -/
+theorem K_index_dyn_key : ¬ NoninterferenceFull (fun _ => none) := by
+  intro h
+  have := h lawful_empty (.index (.var "o") (.var "k"))
+    [("o", .tuple N [.num N 1]), ("k", .unk M .dyn)] [("o", .tuple N [.num N 1]), ("k", .num M 0)]
+    (by simp [relEnv, relV, relL]) (by rfl) (by rfl)
+  revert this
+  decide
+
+/-- `o[k]` with `k` a marked unknown number in one run, marked `0` in the other (`HasIndex` is unknown:
+    the result is unknown with the collection's marks only). -/
+theorem K_index_unknown_key : ¬ NoninterferenceFull (fun _ => none) := by
+  intro h
+  have := h lawful_empty (.index (.var "o") (.var "k"))
+    [("o", .tuple N [.num N 1]), ("k", .unk M .num)] [("o", .tuple N [.num N 1]), ("k", .num M 0)]
+    (by simp [relEnv, relV, relL]) (by rfl) (by rfl)
+  revert this
+  decide
+
+/-- the join of a template `for` directive, `%{ for … }…%{ endfor }` over `x`: an unknown tuple gives
+    `unknown(string)` without marks, a known one a marked string. -/
+theorem K_template_join : ¬ NoninterferenceFull (fun _ => none) := by
+  intro h
+  have := h lawful_empty (.tjoin (.var "x")) [("x", .unk M (.tuple []))] [("x", .tuple M [.str N "a"])]
+    (by simp [relEnv, relV]) (by rfl) (by rfl)
+  revert this
+  decide
+
+/-- `[for v in x : v]` with `x` of the dynamic type in one run: `ForExpr.Value` returns `cty.DynamicVal`
+    before looking at the marks. -/
+theorem K_for_collection : ¬ NoninterferenceFull (fun _ => none) := by
+  intro h
+  have := h lawful_empty (.forTuple "" "v" (.var "x") (.var "v") none)
+    [("x", .unk M .dyn)] [("x", .tuple M [.str N "a"])]
+    (by simp [relEnv, relV]) (by rfl) (by rfl)
+  revert this
+  decide
+
+/-- `{ (x) = 1 }` with an unknown key in one run: `ObjectConsExpr.Value` returns `cty.DynamicVal`. -/
+theorem K_object_key : ¬ NoninterferenceFull (fun _ => none) := by
+  intro h
+  have := h lawful_empty (.object [(.var "x", .lit (.num N 1))]) [("x", .unk M .str)] [("x", .str M "a")]
+    (by simp [relEnv, relV]) (by rfl) (by rfl)
+  revert this
+  decide
+
+/-- `len(x...)` with `x` an unknown tuple in one run: the call is not made, the result is `cty.DynamicVal`. -/
+theorem K_call_expand_unknown : ¬ NoninterferenceFull lenTable := by
+  intro h
+  have := h lawful_lenTable (.call "len" [] (some (.var "x"))) [("x", .unk M (.tuple []))] [("x", .tuple M [])]
+    (by simp [relEnv, relV]) (by rfl) (by rfl)
+  revert this
+  decide
+
+/-- `len(x...)` with `x` the empty tuple in one run, `[1]` in the other (both marked): the marks of `x` are
+    re-applied to its elements only, so the empty expansion leaves no mark on the result. -/
+theorem K_call_expand_empty : ¬ NoninterferenceFull lenTable := by
+  intro h
+  have := h lawful_lenTable (.call "len" [] (some (.var "x"))) [("x", .tuple M [])] [("x", .tuple M [.num N 1])]
+    (by simp [relEnv, relV]) (by rfl) (by rfl)
+  revert this
+  decide
+
+/-! #### family T: the type of a part marked in both runs is observable -/
+
+/-- a witness: an expression, two related scopes, error-free evaluations with unrelated results -/
+theorem refute {F : Funcs} (hF : LawfulFuncs F) (e : Expr) (ρ σ : Env) (v v' : Val) (hr : relEnv ρ σ)
+    (e1 : eval (strictCx F) ρ e = (v, [])) (e2 : eval (strictCx F) σ e = (v', []))
+    (hv : relV v v' = false) : ¬ NoninterferenceFull F := by
+  intro h
+  have := h hF e ρ σ hr (by rw [e1]) (by rw [e2])
+  rw [e1, e2, hv] at this
+  cases this
+
+/- `convertible` is defined by well-founded recursion and does not reduce by evaluation: the conversion of an
+   untyped null is computed here by rewriting -/
+private theorem conv_null_dyn (t : Ty) (f : Fl) (h : t ≠ .dyn) : convert (.null f .dyn) t = .ok (.null f t) := by
+  rw [convert.eq_def]
+  have : (Ty.dyn == t) = false := by simp [Ne.symm h]
+  simp only [Val.typeOf, this, Bool.false_eq_true, if_false]
+  cases t <;> simp [convertible] at h ⊢ <;> rfl
+
+private theorem evalCond_lit (b : Bool) (tv fv : Val) (rty : Ty) (x : Val) (hu : unifyCond tv fv = .ok (some rty))
+    (hx : tryConvert (if b then tv.unmark.1 else fv.unmark.1) rty = .ok x) :
+    evalCond true (.bool N b, []) (tv, []) (fv, []) = (x.withFl ((N.join tv.fl).join fv.fl), []) := by
+  simp only [evalCond, if_true, List.append_nil]
+  rw [Proofs.evalCondCore_eq]
+  simp only [hu, Val.isNull, Bool.false_eq_true, if_false, Val.isKnown, Bool.not_true, Proofs.condKnown]
+  have hc : tryConvert ((Val.bool N b).unmark.1) .bool = .ok (.bool ⟨false, false⟩ b) := by cases b <;> rfl
+  simp only [hc]
+  cases b <;> simp only [Proofs.condPick, Bool.false_eq_true, if_false, if_true] at hx ⊢ <;> simp only [hx] <;> rfl
+
+private theorem conv_null (t : Ty) (h : t ≠ .dyn) :
+    tryConvert (Val.null N Ty.dyn).unmark.1 t = .ok (.null ⟨false, false⟩ t) := by
+  simp [tryConvert, Val.unmark, Val.setFl, Val.fl, Fl.unmark, conv_null_dyn _ _ h]
+
+/-- `false ? x : null` with `x = ["a"]` / `x = [1]`, the element marked: the result is `null` of type
+    `tuple([string])` / `tuple([number])`, without any mark. -/
+theorem T_cond_null_type : ¬ NoninterferenceFull (fun _ => none) := by
+  refine refute lawful_empty (.cond (.lit (.bool N false)) (.var "x") (.lit (.null N .dyn)))
+    [("x", .tuple N [.str M "a"])] [("x", .tuple N [.num M 1])]
+    (.null N (.tuple [.str])) (.null N (.tuple [.num])) (by simp [relEnv, relV, relL]) ?_ ?_ (by decide)
+  · rw [Proofs.eval_cond, Proofs.eval_lit, Proofs.eval_var, Proofs.eval_lit]
+    simp only [Env.lookup, lookupKey, beq_self_eq_true, if_true]
+    rw [show (strictCx fun _ => none).keepDropped = true from rfl,
+      evalCond_lit false _ _ (.tuple [.str]) _ rfl (conv_null _ (by simp))]
+    rfl
+  · rw [Proofs.eval_cond, Proofs.eval_lit, Proofs.eval_var, Proofs.eval_lit]
+    simp only [Env.lookup, lookupKey, beq_self_eq_true, if_true]
+    rw [show (strictCx fun _ => none).keepDropped = true from rfl,
+      evalCond_lit false _ _ (.tuple [.num]) _ rfl (conv_null _ (by simp))]
+    rfl
+
+/-- `false ? [t[k]] : null` with `t = ["a", 1]` unmarked and `k` = marked `0` / marked `1`: all values known,
+    the two scopes have the same types and the same mark positions, and still the result is
+    `null` of type `tuple([string])` / `tuple([number])` without mark. -/
+theorem T_cond_index_type : ¬ NoninterferenceFull (fun _ => none) := by
+  refine refute lawful_empty
+    (.cond (.lit (.bool N false)) (.tuple [.index (.var "t") (.var "k")]) (.lit (.null N .dyn)))
+    [("t", .tuple N [.str N "a", .num N 1]), ("k", .num M 0)]
+    [("t", .tuple N [.str N "a", .num N 1]), ("k", .num M 1)]
+    (.null N (.tuple [.str])) (.null N (.tuple [.num])) (by simp [relEnv, relV, relL]) ?_ ?_ (by decide)
+  · rw [Proofs.eval_cond, Proofs.eval_lit, Proofs.eval_lit]
+    rw [show eval (strictCx fun _ => none) [("t", .tuple N [.str N "a", .num N 1]), ("k", .num M 0)]
+        (.tuple [.index (.var "t") (.var "k")]) = (.tuple N [.str M "a"], []) from by rfl]
+    rw [show (strictCx fun _ => none).keepDropped = true from rfl,
+      evalCond_lit false _ _ (.tuple [.str]) _ rfl (conv_null _ (by simp))]
+    rfl
+  · rw [Proofs.eval_cond, Proofs.eval_lit, Proofs.eval_lit]
+    rw [show eval (strictCx fun _ => none) [("t", .tuple N [.str N "a", .num N 1]), ("k", .num M 1)]
+        (.tuple [.index (.var "t") (.var "k")]) = (.tuple N [.num M 1], []) from by rfl]
+    rw [show (strictCx fun _ => none).keepDropped = true from rfl,
+      evalCond_lit false _ _ (.tuple [.num]) _ rfl (conv_null _ (by simp))]
+    rfl
+
+/-- `l[*].…` evaluating to `x` for every element of a list `l`, with `x = ["a"]` / `[1]` (element marked): the
+    splat builds `list(tuple([string]))` / `list(tuple([number]))`. -/
+theorem T_splat_list_type : ¬ NoninterferenceFull (fun _ => none) := by
+  intro h
+  have := h lawful_empty (.splat "%a" (.var "l") (.var "x"))
+    [("l", .list N .num [.num N 0]), ("x", .tuple N [.str M "a"])]
+    [("l", .list N .num [.num N 0]), ("x", .tuple N [.num M 1])]
+    (by simp [relEnv, relV, relL]) (by rfl) (by rfl)
+  revert this
+  decide
+
+/-- `true ? x : 1` with `x = null` marked in one run, unmarked in the other (`relV` does not compare flags):
+    the unification special-cases an *unmarked* untyped null, so the result is `null` (dynamic, marked) in one
+    run and `null` of type number (unmarked) in the other. -/
+theorem T_cond_mark_position : ¬ NoninterferenceFull (fun _ => none) := by
+  refine refute lawful_empty (.cond (.lit (.bool N true)) (.var "x") (.lit (.num N 1)))
+    [("x", .null M .dyn)] [("x", .null N .dyn)]
+    (.null M .dyn) (.null N .num) (by simp [relEnv, relV]) (by rfl) ?_ (by decide)
+  rw [Proofs.eval_cond, Proofs.eval_lit, Proofs.eval_var, Proofs.eval_lit]
+  simp only [Env.lookup, lookupKey, beq_self_eq_true, if_true]
+  rw [show (strictCx fun _ => none).keepDropped = true from rfl,
+    evalCond_lit true _ _ .num _ rfl (conv_null _ (by simp))]
+  rfl
 
 end HclModel
